@@ -248,6 +248,7 @@ func runC09(tier string, args []string) {
 	}
 	env.verifierProduct()
 	env.verifierReuse()
+	env.verifierAging()
 	if c := env.certs[len(env.certs)/3]; true {
 		run.Sample(map[string]any{"layer": "verifier", "certificate": c.Attr, "node_ids": c.IDs, "dns": c.DNS, "leaf_sha256_pin": hex.EncodeToString(c.pins("match-sha256")[0]), "expected": env.e})
 	}
